@@ -36,14 +36,16 @@ Qed.
 Definition grown (st : bdst) (w : Q) : btree := add_len_set (s_ext st) w (s_tr st).
 
 Inductive bd_next (st : bdst) (w : Q) (nd : nat) : bdst -> Prop :=
-| nx_birth : forall rates',
+| nx_birth : forall brates' drates',
     bd_next st w nd
       (mkSt (set_kids nd [bleaf (s_next st) 0; bleaf (S (s_next st)) 0] (grown st w))
-            (remove_first nd (s_ext st) ++ [s_next st; S (s_next st)]) (s_dead st) rates' (S (S (s_next st))))
+            (remove_first nd (s_ext st) ++ [s_next st; S (s_next st)]) (s_dead st) brates' drates' (S (S (s_next st)))
+            (s_time st + w)%Q)
 | nx_death : remove_first nd (s_ext st) <> [] ->
-    bd_next st w nd (mkSt (grown st w) (remove_first nd (s_ext st)) (s_dead st ++ [nd]) (s_rates st) (s_next st))
+    bd_next st w nd (mkSt (grown st w) (remove_first nd (s_ext st)) (s_dead st ++ [nd]) (s_brates st) (s_drates st) (s_next st)
+                          (s_time st + w)%Q)
 | nx_restart : remove_first nd (s_ext st) = [] ->
-    bd_next st w nd (bd_restart (mkSt (grown st w) [] (s_dead st) (s_rates st) (s_next st))).
+    bd_next st w nd (bd_restart (mkSt (grown st w) [] (s_dead st) (s_brates st) (s_drates st) (s_next st) (s_time st + w)%Q)).
 
 Lemma event_nodes_In : forall ext i nd (b : bool),
   nth_error (flat_map (fun x : nat => [(x, true); (x, false)]) ext) i = Some (nd, b) -> In nd ext.
@@ -57,16 +59,15 @@ Lemma bd_body_shape : forall P st r st' r',
   exists w nd, In nd (s_ext st) /\ bd_next st w nd st' /\ left_ r' < left_ r.
 Proof.
   intros P st r st' r' H. unfold bd_body in H.
-  destruct (Qeq_bool _ _); [discriminate|].
-  step H. pose proof (d_exp_left _ _ _ _ Hs) as L1.
+  step H. unfold expovariate in Hs. destruct (Qeq_bool _ _); [discriminate|].
+  pose proof (d_exp_left _ _ _ _ Hs) as L1.
   step H. unfold weighted_index_choice in Hs0. step Hs0. pose proof (d_unit_left _ _ _ Hs1) as L2.
   apply ret_Done in Hs0. destruct Hs0 as [<- <-].
-  destruct (widx _ _ _) as [i|]; [|discriminate].
+  destruct (pick_index _ _) as [i|]; [|discriminate].
   destruct (nth_error _ i) as [[nd b]|] eqn:En; [|discriminate].
   apply event_nodes_In in En. exists a, nd. split; [exact En|].
   destruct b.
-  - destruct (rates_of P st nd) as [b d].
-    step H. pose proof (d_gauss_left _ _ _ _ _ Hs0) as L3.
+  - step H. pose proof (d_gauss_left _ _ _ _ _ Hs0) as L3.
     step H. pose proof (d_gauss_left _ _ _ _ _ Hs2) as L4.
     step H. pose proof (d_gauss_left _ _ _ _ _ Hs3) as L5.
     step H. pose proof (d_gauss_left _ _ _ _ _ Hs4) as L6.
@@ -120,7 +121,7 @@ Proof.
   assert (Hleafnd : In nd (leaf_ids (grown st w))).
   { rewrite grown_leaf_ids. apply (inv_leaves _ _ I). auto. }
   assert (Hndg : NoDup (ids (grown st w))) by (rewrite grown_ids; apply (inv_nodup _ _ I)).
-  inversion Hnx as [rates'|Hnon|Hemp]; subst; clear Hnx.
+  inversion Hnx as [brates' drates'|Hnon|Hemp]; subst; clear Hnx.
   - (* birth *)
     set (c2 := S (s_next st)). set (c1 := s_next st).
     assert (Hc1 : ~ In c1 (ids (grown st w))).
@@ -130,7 +131,7 @@ Proof.
     assert (Hperm := set_kids_ids nd [bleaf c1 0; bleaf c2 0] _ Hndg Hleafnd).
     simpl flat_map in Hperm. simpl app in Hperm.
     assert (Hleaf := set_kids_leaf_ids nd [bleaf c1 0; bleaf c2 0] _ Hndg Hleafnd ltac:(discriminate)).
-    constructor; cbn [s_tr s_ext s_dead s_next s_rates].
+    constructor; cbn [s_tr s_ext s_dead s_next s_brates s_drates s_time].
     + eapply Permutation_NoDup; [apply Permutation_sym; exact Hperm|].
       constructor; [simpl; intros [Hc|Hc]; [unfold c1, c2 in Hc; lia|auto]|]. constructor; auto.
     + intros y. rewrite Hleaf. simpl. rewrite grown_leaf_ids, (inv_leaves _ _ I).
@@ -165,7 +166,7 @@ Proof.
     + rewrite set_kids_root, grown_root. apply (inv_root _ _ I).
     + rewrite app_length. simpl. pose proof (remove_first_length nd _ Hnd). lia.
   - (* death, other lineages remain *)
-    constructor; cbn [s_tr s_ext s_dead s_next s_rates].
+    constructor; cbn [s_tr s_ext s_dead s_next s_brates s_drates s_time].
     + exact Hndg.
     + intros y. rewrite grown_leaf_ids, (inv_leaves _ _ I), in_app_iff, (remove_first_spec nd y _ Hne). simpl.
       split.
@@ -187,7 +188,7 @@ Proof.
     unfold bd_restart. simpl.
     assert (Hr : b_id (grown st w) = 0) by (rewrite grown_root; apply (inv_root _ _ I)).
     destruct (grown st w) as [i l tx ks] eqn:Eg. simpl in Hr. subst i. simpl.
-    constructor; cbn [s_tr s_ext s_dead s_next s_rates].
+    constructor; cbn [s_tr s_ext s_dead s_next s_brates s_drates s_time].
     + simpl. constructor; [simpl; tauto|constructor].
     + intros y. simpl. tauto.
     + simpl. constructor; [simpl; tauto|constructor].
@@ -231,13 +232,13 @@ Qed.
 
 Lemma bd_body_fuel : forall P st r, bd_body P st r <> NoFuel.
 Proof.
-  intros P st r H. unfold bd_body in H. destruct (Qeq_bool _ _); [discriminate|].
-  apply bnd_NoFuel in H. destruct H as [H|(w & r1 & _ & H)]; [eapply d_exp_fuel; eauto|].
+  intros P st r H. unfold bd_body in H.
+  apply bnd_NoFuel in H. destruct H as [H|(w & r1 & _ & H)];
+    [unfold expovariate in H; destruct (Qeq_bool _ _); [discriminate|eapply d_exp_fuel; eauto]|].
   apply bnd_NoFuel in H. destruct H as [H|(oi & r2 & _ & H)].
   - unfold weighted_index_choice in H. apply bnd_NoFuel in H. destruct H as [H|(u & r3 & _ & H)]; [eapply d_unit_fuel; eauto|discriminate].
   - destruct oi as [i|]; [|discriminate]. destruct (nth_error _ i) as [[nd b]|]; [|discriminate]. destruct b.
-    + destruct (rates_of P st nd) as [b d].
-      apply bnd_NoFuel in H. destruct H as [H|(g1 & r3 & _ & H)]; [eapply d_gauss_fuel; eauto|].
+    + apply bnd_NoFuel in H. destruct H as [H|(g1 & r3 & _ & H)]; [eapply d_gauss_fuel; eauto|].
       apply bnd_NoFuel in H. destruct H as [H|(g2 & r4 & _ & H)]; [eapply d_gauss_fuel; eauto|].
       apply bnd_NoFuel in H. destruct H as [H|(g3 & r5 & _ & H)]; [eapply d_gauss_fuel; eauto|].
       apply bnd_NoFuel in H. destruct H as [H|(g4 & r6 & _ & H)]; [eapply d_gauss_fuel; eauto|].
